@@ -149,6 +149,8 @@ def gen_versions(rng):
     pool = ["Package: a\n", "Version: 1\n", "\n", "Package: b\n", "Depends: a, b\n", "Description: é\n", " more\n", ".\n", " .\n", "x\n",
             "Description: a\u2028b\n", "ff\x0cx\n", " n\x85l \x1c\n"] + ["X: %s\n" % b for b in tricky.VALUE_BITS if b not in (".",)]
     v = [rng.choice(pool) for _ in range(rng.randint(0, 6))]
+    if v and rng.random() < 0.1:
+        v[0] = "\ufeff" + v[0]          # the published text may start with a byte order mark: it is content like any other
     out = [list(v)]
     for _ in range(rng.randint(0, 3)):
         v = list(v)
